@@ -164,11 +164,14 @@ func (s *machine) actions() map[string]func(*rapid.T) {
 			m := s.model(t)
 			c, ok := pickOperand(t, filter(m.operands(), f))
 			if !ok {
-				t.Skip("no operand")
+				// a no-op step, not t.Skip: under the byte-driven fuzz target one
+				// input can select the same inapplicable action over and over, and
+				// rapid fails a run whose steps are all skipped
+				return
 			}
 			o := build(t, m, c)
 			if o == nil {
-				t.Skip("not applicable")
+				return
 			}
 			o.H, o.Path = c.H, c.Path
 			if o.Route == "" {
